@@ -143,7 +143,7 @@ Definition skipped_expand_cases (cs : list xcase) : list Z :=
 (* the theorem expand_equals_unroll, evaluated on the observed data: where the unrolling
    exists and the body conforms, the REFERENCE must agree with what was observed *)
 Definition unroll_applies (c : xcase) : bool :=
-  negb (k_mode c =? 2) && clean (unroll (k_body c) (k_ectx c)) && conforms (k_sch c) false (k_body c).
+  negb (k_mode c =? 2) && clean (unroll (k_body c) (k_ectx c)) && conforms (k_sch c) (k_body c).
 Definition check_unroll_case (c : xcase) : bool :=
   if unroll_applies c
   then negb (tree_status (observe_u (k_sch c) (k_dctx c) (unroll (k_body c) (k_ectx c))) (k_obs c) =? 1)
